@@ -29,6 +29,14 @@ CHECKS['C15'] = ('generator/thread fields stored only under the generator lock; 
                  'lockset analysis + CFG dominance/must-pass queries')
 CHECKS['C16'] = ('strict-count guard dominates every return of both merge_states and the counter is per state; shard tasks enumerate each index once; exactly one final AggregateResult per merge thread and per interleaved stage; every collected agg state is merged; terminal marker (R-C06-4) and RPC table (R-C14-1)',
                  'CFG dominance and reachability, AST structure, table agreement')
+CHECKS['C08'] = ('operators only reach the copying tree API and never mutate objects owned by the records they receive; key validation dominates construction of assign/aggregate transforms and raises on duplicates / SELF mixing; sinks closed on every exit incl. generator close; possibly-empty key tuples never reach an unguarded [0] read',
+                 'effect/alias (taint) analysis, CFG dominance and must-pass-through, intra-class dataflow from constructor call sites to index reads')
+CHECKS['C12'] = ('every operator and the runner forward ignore_error; iter_ignore_error never wraps a generator object (return-kind inference through callers); skip path yields the sentinel it filters on and zips with the input tee; failing index advanced before re-raise; raised wrappers chain their cause; sinks closed (R-C08-3)',
+                 'sibling agreement over iterate overrides, interprocedural return-kind inference, CFG must-pass queries')
+CHECKS['C17'] = ('uncached path never touches the cache and evaluates afresh; hit returns the stored object; miss evaluates once/stores/returns the same object for LazyFn and raises LazyObjectMissingError otherwise; callee, args, kwargs and result all pass through _maybe_make; LRU size accounting, bounded eviction of the oldest key and hit refresh; hash uses only fields eq compares',
+                 'CFG reachability/dominance with branch pruning, AST dataflow, table agreement')
+CHECKS['C18'] = ('with in_place=False the set path stores only into fresh copies and never into the viewed tree; in_place threaded unchanged through recursion and every set() arm; all copy APIs route through set(in_place=False); apply copies the root; Key() pattern precedes the multi-key pattern',
+                 'effect/alias analysis with constant folding of the in_place flag, AST routing checks')
 NA = {
     'C02': 'slice membership and per-slice aggregate equality quantify over runtime mask/slice-key values produced by user functions; no structural clause separates a correct from an off-by-one mask builder',
     'C03': 'equality of outputs across threaded/fused/sharded executions is a relation between executions; its only structural ingredients (shared-input locking, merge count) are claimed under C13 and C16',
